@@ -172,6 +172,7 @@ static void vs_flush_choices(void) {
 static void vs_child_exit(void) {
     fflush(vh_out);
     vs_flush_choices();
+    VH_COV_FLUSH();
     _exit(0);
 }
 
@@ -789,7 +790,7 @@ static void vs_atomic_hook(int kind, const volatile void *var) {
 
 /* The runner's own allocations (script lines, DFS frontier) must not show up as leaks in a child's leak check:
  * everything the parent allocates is allocated with leak detection disabled; the child re-enables it. */
-#ifdef VS_TSAN
+#if defined(VS_TSAN) || defined(VH_NO_ASAN)
 static void vs_lsan_disable(void) {
 }
 static void vs_lsan_enable(void) {
